@@ -256,6 +256,96 @@ example : isStoreKind (ExStore.s4.res 0).kind = true ∧ (ExStore.s4.res 0).item
     putItems ExStore.s4 0 = [7, 5, 9] ∧ (ExStore.s1.res 0).putQ = [4] ∧ (ExStore.s4.res 0).putQ = [] := by
   decide +kernel
 
+/-! ### b-conserve, part 2: first come first served, along whole runs
+
+`Before l a b`: `a` stands before `b` in `l`.  `AUnit t t'`: one atomic unit of the model with the guard under which
+the model executes it (see `Lemmas/ConserveTrace.lean`); every run is a finite sequence of such units
+(`C06.run_is_unit_sequence`). -/
+
+/-- **Put queues and get queues of containers and stores are in creation order (event ids increasing)** and hold only
+waiting requests of their own resource, each once — in every reachable state. -/
+theorem queues_in_creation_order (body : σ → Resume → Burst ℚ σ) (fuel : Nat) (s0 s : KState ℚ σ)
+    (hW : WF s0) (hS : QSorted s0) (hr : SafeReach body fuel s0 s) (r : ResId) (hk : isPrioKind (s.res r).kind = false) :
+    (s.res r).putQ.Pairwise (fun a b => a < b) ∧ (s.res r).getQ.Pairwise (fun a b => a < b) := by
+  have h := (reach_queue body fuel s0 s hW hr).2 hS
+  refine ⟨?_, h.get r⟩
+  have := h.put r
+  rw [hk] at this
+  exact this.imp (fun hab => by unfold rankLt at hab; simpa using hab)
+
+/-- **Put requests are served first come first served, along whole runs**: if put `a` is queued before put `b` in some
+reachable state, then in every later state in which `b` has been granted, `a` has been granted too, or was cancelled. -/
+theorem fcfs_put_global (body : σ → Resume → Burst ℚ σ) (fuel : Nat) (s0 s s' : KState ℚ σ)
+    (hW : WF s0) (hr0 : SafeReach body fuel s0 s) (hr : SafeReach body fuel s s') (r : ResId) (a b : EvId)
+    (hab : Before (s.res r).putQ a b) (hb : (s'.ev b).out ≠ none) :
+    (s'.ev a).out ≠ none ∨ (a ∉ (s'.res r).putQ ∧ (s'.ev a).out = none) :=
+  have hWs := (reach_base body fuel s0 s hW hr0).2
+  ((reach_queue body fuel s s' hWs hr).1.put r).order trivial a b hab hb
+
+/-- **Get requests are served first come first served, along whole runs — for every class except FilterStore.** -/
+theorem fcfs_get_global (body : σ → Resume → Burst ℚ σ) (fuel : Nat) (s0 s s' : KState ℚ σ)
+    (hW : WF s0) (hr0 : SafeReach body fuel s0 s) (hr : SafeReach body fuel s s') (r : ResId) (a b : EvId)
+    (hf : (s.res r).kind ≠ .fstore) (hab : Before (s.res r).getQ a b) (hb : (s'.ev b).out ≠ none) :
+    (s'.ev a).out ≠ none ∨ (a ∉ (s'.res r).getQ ∧ (s'.ev a).out = none) :=
+  have hWs := (reach_base body fuel s0 s hW hr0).2
+  ((reach_queue body fuel s s' hWs hr).1.get r).order hf a b hab hb
+
+/-- **A cancelled request (put or get) is never granted and never re-enters its queue; requests that stay queued keep
+their relative order** — for every class, FilterStore included. -/
+theorem cancelled_stays_cancelled (body : σ → Resume → Burst ℚ σ) (fuel : Nat) (s0 s s' : KState ℚ σ)
+    (hW : WF s0) (hr0 : SafeReach body fuel s0 s) (hr : SafeReach body fuel s s') (r : ResId) :
+    (∀ a, (s.ev a).kind = .put r → a ∉ (s.res r).putQ → (s.ev a).out = none → a ∉ (s'.res r).putQ ∧ (s'.ev a).out = none) ∧
+    (∀ a, (s.ev a).kind = .get r → a ∉ (s.res r).getQ → (s.ev a).out = none → a ∉ (s'.res r).getQ ∧ (s'.ev a).out = none) ∧
+    (∀ a b, Before (s.res r).getQ a b → a ∈ (s'.res r).getQ → b ∈ (s'.res r).getQ → Before (s'.res r).getQ a b) :=
+  have hWs := (reach_base body fuel s0 s hW hr0).2
+  have h := (reach_queue body fuel s s' hWs hr).1
+  ⟨(h.put r).dead, (h.get r).dead, (h.get r).keep⟩
+
+/-- **A put is granted only while it is the oldest waiting put and `_do_put`'s guard holds** (the only atomic unit
+that triggers a waiting put request is `_do_put` on the head of the queue). -/
+theorem put_granted_only_at_head (t t' : KState ℚ σ) (h : AUnit t t') (r : ResId) (e : EvId)
+    (hk : (t.ev e).kind = .put r) (ho : (t.ev e).out = none) (ho' : (t'.ev e).out ≠ none) :
+    ∃ rest, (t.res r).putQ = e :: rest ∧ canPut t r e = true ∧ t' = grantPutSt t r e :=
+  h.grant_put hk ho ho'
+
+/-- **A get is granted only in its turn; only FilterStore lets a later getter overtake, and only getters whose filter
+matches nothing**: at the moment get `e` is granted it can be served (`getItem = some v`), it receives `v`, and every
+queue member in front of it belongs to a FilterStore and matches no item at that moment. -/
+theorem get_granted_only_in_turn (t t' : KState ℚ σ) (h : AUnit t t') (r : ResId) (e : EvId)
+    (hk : (t.ev e).kind = .get r) (ho : (t.ev e).out = none) (ho' : (t'.ev e).out ≠ none) :
+    ∃ v pre rest, (t.res r).getQ = pre ++ e :: rest ∧ getItem t r e = some v ∧ (t'.ev e).out = some (.ok v) ∧
+      (∀ a ∈ pre, (t.res r).kind = .fstore ∧
+        (t.res r).items.find? (filterOk (reqOf t a).filter) = none) ∧
+      ((t.res r).kind ≠ .fstore → pre = []) := by
+  obtain ⟨v, pre, rest, hq, hg, hp, hs⟩ := h.grant_get hk ho ho'
+  have hWt : WF t := by cases h <;> assumption
+  refine ⟨v, pre, rest, hq, hg, ?_, ?_, ?_⟩
+  · rw [hs]; exact (Base.getEffect_of_guard hWt hq hg).outE
+  · intro a ha
+    obtain ⟨hf, hn⟩ := hp a ha
+    refine ⟨hf, ?_⟩
+    unfold getItem at hn
+    simp only [hf, Option.map_eq_none_iff] at hn
+    exact hn
+  · intro hf
+    cases pre with
+    | nil => rfl
+    | cons p ps => exact absurd (hp p List.mem_cons_self).1 hf
+
+/-- **PriorityStore hands out a smallest item, at every grant of every run**: at the moment a get of a PriorityStore
+is granted, the value it receives is an item of the store and no item of the store is smaller. -/
+theorem pstore_grant_is_min (t t' : KState ℚ σ) (h : AUnit t t') (r : ResId) (e : EvId)
+    (hk : (t.ev e).kind = .get r) (ho : (t.ev e).out = none) (ho' : (t'.ev e).out ≠ none)
+    (hp : (t.res r).kind = .pstore) :
+    ∃ m, (t'.ev e).out = some (.ok (.int m)) ∧ m ∈ (t.res r).items ∧ ∀ y ∈ (t.res r).items, m ≤ y := by
+  obtain ⟨v, pre, rest, _, hg, hout, _, _⟩ := get_granted_only_in_turn t t' h r e hk ho ho'
+  obtain ⟨m, hv, hm⟩ := pstore_smallest_first t r e v hp hg
+  exact ⟨m, by rw [hout, hv], hm⟩
+
+/-! non-vacuity: in the Store run above the put of 9 (event 4) waits in `s1`, and is granted in `s4` -/
+example : (ExStore.s1.ev 4).kind = .put 0 ∧ ExStore.s1.triggered 4 = false ∧ ExStore.s4.triggered 4 = true ∧
+    (ExStore.s1.res 0).putQ = [4] := by decide +kernel
+
 /-! ## ===== b-conserve — END ===== -/
 
 end C07
